@@ -19,8 +19,11 @@ class ToolError(Exception):
     """failure of the tooling itself (exit status 2), never a verdict"""
 
 
+_T0 = time.time()
+
+
 def log(*a):
-    print("[check]", *a, file=sys.stderr, flush=True)
+    print("[check %6.1fs]" % (time.time() - _T0), *a, file=sys.stderr, flush=True)
 
 
 def sh(cmd, **kw):
